@@ -37,7 +37,7 @@ func (p *c01) scenario(c fw.Case) (*gen.Scenario, *fw.Rand) {
 	if c.Directed != "" {
 		return findDirected(engineDirected(), c.Directed), r
 	}
-	o := gen.ScenOpts{LoopHeavy: r.Chance(0.6), SmallOptions: r.Chance(0.25), MaxNodes: r.Range(2, 8), ContactChanges: r.Chance(0.2)}
+	o := gen.ScenOpts{LoopHeavy: r.Chance(0.6), SmallOptions: r.Chance(0.25), MaxNodes: r.Range(2, 8), ContactChanges: r.Chance(0.2), InvalidP: 0.03}
 	return gen.Scen(r, o), r
 }
 
